@@ -142,6 +142,36 @@ static status_t PutItem(Message & m, const String & fn, uint32 tc, const mj::Val
    }
 }
 
+// a field of type tc with ZERO items in m: two junk items in a donor Message, donor.ShareName(fn, m) (two items: the item array is shared, not
+// copied), then the donor removes both items ("changes to the field in one Message will be seen in the other"; the donor's own field goes with its last item)
+static status_t PutZeroItemField(Message & m, const String & fn, uint32 tc)
+{
+   if (m.HasName(fn)) return B_TYPE_MISMATCH;
+   Message donor;
+   const uint8 zeros[16] = {0};
+   for (int i=0; i<2; i++)
+   {
+      status_t r;
+      switch(tc)
+      {
+         case B_STRING_TYPE:  r = donor.AddString(fn, "junk"); break;
+         case B_MESSAGE_TYPE: r = donor.AddMessage(fn, GetMessageFromPool(7)); break;
+         case B_BOOL_TYPE: case B_INT8_TYPE: r = donor.AddData(fn, tc, zeros, 1); break;
+         case B_INT16_TYPE:                  r = donor.AddData(fn, tc, zeros, 2); break;
+         case B_INT32_TYPE: case B_FLOAT_TYPE: r = donor.AddData(fn, tc, zeros, 4); break;
+         case B_INT64_TYPE: case B_DOUBLE_TYPE: r = donor.AddData(fn, tc, zeros, 8); break;
+         case B_POINT_TYPE:   r = donor.AddPoint(fn, Point(1.0f, 2.0f)); break;
+         case B_RECT_TYPE:    r = donor.AddRect(fn, Rect(1.0f, 2.0f, 3.0f, 4.0f)); break;
+         case B_TAG_TYPE: case B_POINTER_TYPE: return B_BAD_ARGUMENT;
+         default:             r = donor.AddData(fn, tc, zeros, 3); break;      // raw buffers of type tc
+      }
+      MRETURN_ON_ERROR(r);
+   }
+   MRETURN_ON_ERROR(donor.ShareName(fn, m));
+   (void) donor.RemoveData(fn, 0);
+   return donor.RemoveData(fn, 0);
+}
+
 static String NameOf(const mj::Value & n) {const std::string s = BytesOf(n); return String(s.data(), (uint32) s.size());}
 
 // one step of an API script: {op, n, t, v, i, a}
@@ -154,6 +184,7 @@ static status_t ApplyStep(Message & m, const mj::Value & s)
    if (op == "Replace")    return PutItem(m, fn, W32(s["t"]), s["v"], MODE_REPLACE, (uint32) s["i"].i(), s["a"].truthy());
    if (op == "Remove")     return (((g_variant++ % 4) == 3)&&(m.GetNumValuesInName(fn) == ((uint32) s["i"].i())+1)) ? m.RemoveLastData(fn) : m.RemoveData(fn, (uint32) s["i"].i());
    if (op == "RemoveName") return m.RemoveName(fn);
+   if (op == "ZeroField")  return PutZeroItemField(m, fn, W32(s["t"]));
    fprintf(stderr, "unknown op [%s]\n", op.c_str()); exit(2);
 }
 
@@ -168,6 +199,7 @@ static MessageRef BuildScript(const mj::Value & sc)
       {
          const String fn = NameOf(fs.a[i]["name"]); const uint32 tc = W32(fs.a[i]["type"]);
          const mj::Value & its = fs.a[i]["items"];
+         if ((its.a.empty())&&(PutZeroItemField(*r(), fn, tc).IsError())) return MessageRef();
          for (size_t j=0; j<its.a.size(); j++) if (PutItem(*r(), fn, tc, its.a[j], MODE_ADD, 0, false).IsError()) return MessageRef();
       }
       return r;
@@ -237,8 +269,7 @@ static void CheckState(const Message & m, const Message * twin, const std::strin
       for (MessageFieldNameIterator im = m.GetFieldNameIterator(); im.HasData(); im++)
       {
          uint32 tc = 0, n = 0; (void) m.GetInfo(im.GetFieldName(), &tc, &n);
-         if (n == 0) {viol.push_back("a field with zero items is still listed"); break;}
-         if ((tc == B_TAG_TYPE)||(tc == B_POINTER_TYPE)) continue;
+         if ((tc == B_TAG_TYPE)||(tc == B_POINTER_TYPE)) continue;     // (n == 0 is a legitimate state: a shared field emptied through the other Message)
          uint32 tc2 = 0, n2 = 0;
          if ((ir.HasData() == false)||(ir.GetFieldName() != im.GetFieldName())||(r.GetInfo(ir.GetFieldName(), &tc2, &n2).IsError())||(tc2 != tc)||(n2 != n))
             {viol.push_back("parsed Message has other fields / field order / type codes / item counts than the original"); break;}
@@ -314,6 +345,104 @@ static int Replay(int argc, char ** argv)
    for (int a=0; a<5; a++) for (int b=0; b<5; b++) if (trans[a][b]) {snprintf(key, sizeof(key), "%d>%d", a, b); tr.set(key, mj::Value::Int((int64_t) trans[a][b]));}
    ReportLine(mj::Value::Obj().set("summary", mj::Value::Bool(true)).set("behaviours", mj::Value::Int((int64_t) nBeh)).set("followed", mj::Value::Int((int64_t) nFollowed)).set("steps", mj::Value::Int((int64_t) nSteps))
               .set("status_differs", mj::Value::Int((int64_t) nOkDiff)).set("bytes_compared", mj::Value::Int((int64_t) nBytes)).set("distinct_encodings", mj::Value::Int((int64_t) distinct.size())).set("item_count_transitions", tr));
+   return 0;
+}
+
+// ------------------------------------------------------------------------------------------------ vec01 (C01: whole vectors, e.g. deep nesting, zero-item fields)
+//   wire vec01 <vectors.ndjson> <report.ndjson>     a vector = {id, m: Message value, s: the API script that builds it, b, z: bytes and size per WireAbs}
+static int Vec01(int argc, char ** argv)
+{
+   if (argc < 4) return 2;
+   FILE * in = fopen(argv[2], "r"); if (in == NULL) return 2;
+   OpenReport(argv[3]);
+   uint64_t n = 0, ok = 0, bytes = 0; std::string line;
+   while ((mj::ReadLine(in, line))&&(g_violCases < MAX_VIOL_CASES))
+   {
+      mj::Value v; if (mj::Parse(line, v) == false) {fprintf(stderr, "bad vector line\n"); return 2;}
+      n++; g_sawNonFlat = false;
+      snprintf(g_ctx, sizeof(g_ctx), "vec01 vector %lld", (long long) v["id"].i());
+      alarm(60);
+      const uint32 var = g_variant;
+      MessageRef m = BuildScript(v["s"]); g_variant = var; MessageRef twin = BuildScript(v["s"]);
+      Strs viol; std::string got;
+      if ((m() == NULL)||(twin() == NULL)) viol.push_back("the C++ API refuses to build the vector");
+      else {const std::string expB = BytesOf(v["b"]); CheckState(*m(), twin(), &expB, v["z"].i(), got, viol); bytes += got.size();}
+      alarm(0);
+      if (viol.size() > 0) {g_violCases++; ReportLine(mj::Value::Obj().set("vector", v["id"]).set("note", v["note"]).set("violations", StrArr(viol)).set("code", mj::Value::Str(Short(Hex(got)))));}
+      else ok++;
+   }
+   ReportLine(mj::Value::Obj().set("summary", mj::Value::Bool(true)).set("vectors", mj::Value::Int((int64_t) n)).set("agreed", mj::Value::Int((int64_t) ok)).set("bytes_compared", mj::Value::Int((int64_t) bytes)));
+   return 0;
+}
+
+// ------------------------------------------------------------------------------------------------ heap (C01: aliasing histories, serialising after every call)
+//   wire heap <behaviours.ndjson> <report.ndjson>   behaviours of WireHeap.tla: several Message objects that refer to each other (AddMessage of a shared
+//   MessageRef) and share item arrays (ShareName); after EVERY call EVERY object is sized, serialised, parsed and compared with the specification.
+static int Heap(int argc, char ** argv)
+{
+   if (argc < 4) return 2;
+   FILE * in = fopen(argv[2], "r"); if (in == NULL) return 2;
+   OpenReport(argv[3]);
+   uint64_t nBeh = 0, nFollowed = 0, nSteps = 0, nChecks = 0, nOkDiff = 0, nZero = 0, nAliasChange = 0, nShare = 0; std::string line;
+   while ((mj::ReadLine(in, line))&&(g_violCases < MAX_VIOL_CASES))
+   {
+      mj::Value beh; if (mj::Parse(line, beh) == false) {fprintf(stderr, "bad behaviour line\n"); return 2;}
+      const mj::Value & steps = beh["steps"];
+      if ((steps.a.empty())||(steps.a[0]["op"].str() != "New")) {fprintf(stderr, "a behaviour must start with New\n"); return 2;}
+      nBeh++; g_sawNonFlat = false;
+      alarm(120);
+      const size_t N = steps.a[0]["ws"].a.size();
+      std::vector<MessageRef> obj, tw;
+      for (size_t o=0; o<N; o++) {obj.push_back(GetMessageFromPool(W32(steps.a[0]["ws"].a[o]))); tw.push_back(GetMessageFromPool(W32(steps.a[0]["ws"].a[o])));}
+      Strs viol; size_t k = 0;
+      for (k=0; k<steps.a.size(); k++)
+      {
+         const mj::Value & s = steps.a[k];
+         const std::string & op = s["op"].str();
+         snprintf(g_ctx, sizeof(g_ctx), "heap behaviour %lld step %zu (%s)", (long long) beh["id"].i(), k, op.c_str());
+         if (k > 0)
+         {
+            const size_t o = (size_t) s["o"].i() - 1; const size_t t = (s["k"].i() > 0) ? (size_t) s["k"].i() - 1 : 0;
+            const String fn = NameOf(s["n"]);
+            status_t ret;
+            for (int pass=0; pass<2; pass++)
+            {
+               std::vector<MessageRef> & O = pass ? tw : obj;
+               status_t r;
+               if      (op == "AddRef")     r = O[o]()->AddMessage(fn, O[t]);              // the very same MessageRef: no copy
+               else if (op == "PrependRef") r = O[o]()->PrependMessage(fn, O[t]);
+               else if (op == "Share")      {r = O[o]()->ShareName(fn, *O[t]()); if (pass == 0) nShare++;}
+               else if (op == "What")       {O[o]()->what = W32(s["v"]); r = B_NO_ERROR;}
+               else {const uint32 var = g_variant; r = ApplyStep(*O[o](), s); if (pass == 0) g_variant = var;}
+               if (pass == 0) ret = r;
+            }
+            if (ret.IsOK() != s["ok"].truthy()) nOkDiff++;
+            if ((ret.IsOK())&&(op != "Share")&&(op != "What")) for (size_t p=0; p<o; p++) {MessageFieldNameIterator it = obj[p]()->GetFieldNameIterator(B_MESSAGE_TYPE); if (it.HasData()) {nAliasChange++; break;}}
+         }
+         nSteps++;
+         for (size_t o=0; (o<N)&&(viol.empty()); o++)
+         {
+            const std::string expB = BytesOf(s["bs"].a[o]); std::string got; Strs v1;
+            CheckState(*obj[o](), tw[o](), &expB, s["zs"].a[o].i(), got, v1); nChecks++;
+            for (MessageFieldNameIterator it = obj[o]()->GetFieldNameIterator(); it.HasData(); it++) if (obj[o]()->GetNumValuesInName(it.GetFieldName()) == 0) nZero++;
+            char tmp[64]; snprintf(tmp, sizeof(tmp), "object %zu: ", o+1);
+            for (size_t q=0; q<v1.size(); q++) viol.push_back(std::string(tmp) + v1[q]);
+         }
+         if (viol.size() > 0) break;
+      }
+      alarm(0);
+      if (viol.size() > 0)
+      {
+         g_violCases++;
+         mj::Value calls = mj::Value::Arr();     // the calls up to the failing one, without the byte dumps
+         for (size_t j=0; (j<=k)&&(j<steps.a.size()); j++) {mj::Value c = mj::Value::Obj(); for (size_t q=0; q<steps.a[j].o.size(); q++) if ((steps.a[j].o[q].first != "bs")&&(steps.a[j].o[q].first != "zs")) c.set(steps.a[j].o[q].first, steps.a[j].o[q].second); calls.push(c);}
+         ReportLine(mj::Value::Obj().set("behaviour", beh["id"]).set("step", mj::Value::Int((int64_t) k)).set("violations", StrArr(viol)).set("calls", calls));
+      }
+      else nFollowed++;
+   }
+   ReportLine(mj::Value::Obj().set("summary", mj::Value::Bool(true)).set("behaviours", mj::Value::Int((int64_t) nBeh)).set("followed", mj::Value::Int((int64_t) nFollowed)).set("steps", mj::Value::Int((int64_t) nSteps))
+              .set("object_checks", mj::Value::Int((int64_t) nChecks)).set("status_differs", mj::Value::Int((int64_t) nOkDiff)).set("zero_item_fields_serialised", mj::Value::Int((int64_t) nZero))
+              .set("calls_on_an_object_other_messages_may_refer_to", mj::Value::Int((int64_t) nAliasChange)).set("sharenames", mj::Value::Int((int64_t) nShare)));
    return 0;
 }
 
@@ -619,7 +748,7 @@ struct Impls
 };
 
 // asks one helper to (U) parse + re-serialise the C++ bytes, (B) build the content natively; returns "same" flags and explains differences
-static void AskImpl(Impls & I, Child & c, const std::string & cppHex, const std::string & text, bool doU, bool doB, int & sameU, int & sameB, Strs & notes)
+static void AskImpl(Impls & I, Child & c, const std::string & cppHex, const std::string & text, bool doU, bool doB, int & sameU, int & sameB, Strs & notes, std::string & replyU, std::string & replyB)
 {
    std::string reply;
    sameU = sameB = -1;
@@ -627,14 +756,14 @@ static void AskImpl(Impls & I, Child & c, const std::string & cppHex, const std:
    {
       snprintf(g_ctx + strlen(g_ctx), sizeof(g_ctx) - strlen(g_ctx), " [%s U]", c.name.c_str());
       const bool alive = c.Ask("U " + cppHex, reply); I.comparisons++;
-      sameU = ((alive)&&(reply == "K " + cppHex)) ? 1 : 0;
+      sameU = ((alive)&&(reply == "K " + cppHex)) ? 1 : 0; replyU = reply;
       if (sameU == 0) notes.push_back(c.name + " parse + re-serialise of the C++ bytes: " + (reply.compare(0, 2, "K ") == 0 ? "different bytes " + Short(reply.substr(2)) : reply.substr(0, 300)));
    }
    if (doB)
    {
       snprintf(g_ctx + strlen(g_ctx), sizeof(g_ctx) - strlen(g_ctx), " [%s B]", c.name.c_str());
       const bool alive = c.Ask("B " + text, reply); I.comparisons++;
-      sameB = ((alive)&&(reply == "K " + cppHex)) ? 1 : 0;
+      sameB = ((alive)&&(reply == "K " + cppHex)) ? 1 : 0; replyB = reply;
       if (sameB == 0) notes.push_back(c.name + " native build: " + (reply.compare(0, 2, "K ") == 0 ? "different bytes " + Short(reply.substr(2)) : reply.substr(0, 300)));
       else
       {
@@ -646,7 +775,7 @@ static void AskImpl(Impls & I, Child & c, const std::string & cppHex, const std:
    }
 }
 
-struct VecResult {std::string cppBytes; MessageRef msg; int o[6]; Strs notes; Strs viol;};   // o: mini_u mini_b micro_u micro_b py_u py_b
+struct VecResult {std::string cppBytes; MessageRef msg; int o[6]; std::string rep[6]; Strs notes; Strs viol;};   // o: mini_u mini_b micro_u micro_b py_u py_b
 
 // allow[k] < 0: ask and record (random direction); 0: outside the repertoire, do not ask; 1: inside, a disagreement is a violation
 // script: the (possibly not append-only) API script that leaves the content; NULL: plain Add calls in content order
@@ -666,7 +795,7 @@ static void DoVector(Impls & I, const mj::Value & content, const mj::Value * scr
    Child * cs[3] = {&I.mini, &I.micro, &I.py};
    for (int k=0; k<3; k++)
    {
-      AskImpl(I, *cs[k], hex, text, allow[2*k] != 0, allow[2*k+1] != 0, res.o[2*k], res.o[2*k+1], res.notes);
+      AskImpl(I, *cs[k], hex, text, allow[2*k] != 0, allow[2*k+1] != 0, res.o[2*k], res.o[2*k+1], res.notes, res.rep[2*k], res.rep[2*k+1]);
       for (int j=0; j<2; j++) if ((allow[2*k+j] > 0)&&(res.o[2*k+j] != 1)) res.viol.push_back(res.notes.empty() ? std::string("disagreement") : res.notes.back());
    }
 }
@@ -721,7 +850,8 @@ static int X08Vec(int argc, char ** argv)
    Impls I; I.Setup(argv+5);
    const std::string tol = (argc > 9) ? argv[9] : "";                 // ids of the open known findings to tolerate, e.g. "F38,F39"
    const bool tol38 = (tol.find("F38") != std::string::npos), tol39 = (tol.find("F39") != std::string::npos);
-   uint64_t known38 = 0, known39 = 0, nDetour = 0;
+   const bool tol45mini = (tol.find("F45mini") != std::string::npos), tol45micro = (tol.find("F45micro") != std::string::npos);
+   uint64_t known38 = 0, known39 = 0, known45mini = 0, known45micro = 0, nDetour = 0;
    Rng slice(12345); g_sliceRng = &slice;
    uint64_t nVec = 0, nFrames = 0, asked[6] = {0,0,0,0,0,0}, skipped[6] = {0,0,0,0,0,0};
    std::set<std::string> distinct;
@@ -736,15 +866,33 @@ static int X08Vec(int argc, char ** argv)
       // where an OPEN known finding applies (says the specification: f38 / f39) the one leg it concerns is asked but not judged
       const bool t38 = (tol38)&&(v["f38"].truthy()), t39 = (tol39)&&(v["f39"].truthy());
       const int py = v["py"].truthy() ? (t39 ? -1 : 1) : 0, pyn = v["pyn"].truthy() ? (t39 ? -1 : 1) : 0;
-      const int allow[6] = {1, 1, t38 ? -1 : 1, 1, py, pyn};
+      // F45mini / F45micro (open known findings): the legs they concern are asked and judged below: only the listed failure is tolerated
+      const bool t45mini = (tol45mini)&&(v["f45mini"].truthy()), t45micro = (tol45micro)&&(v["f45micro"].truthy());
+      const int nat = v["zero"].truthy() ? 0 : 1;        // (gateway batches: the C gateways build natively and a refused Message would tear down the whole batch)
+      const int allow[6] = {t45mini ? -1 : 1, t45mini ? -1 : 1, ((t38)||(t45micro)) ? -1 : 1, t45micro ? -1 : 1, py, pyn};
       for (int k=0; k<6; k++) {if (allow[k]) asked[k]++; else skipped[k]++;}
       const std::string specB = BytesOf(v["b"]);
       if (v["d"].i() > 0) nDetour++;
       VecResult res; DoVector(I, v["m"], v.has("s") ? &v["s"] : NULL, &specB, v["z"].i(), allow, res);
       distinct.insert(res.cppBytes);
+      if ((t45mini)&&(res.viol.empty()))
+      {
+         if (res.o[0] != 1) {if (res.rep[0].compare(0, 29, "E MMUnflattenMessage refuses ") == 0) known45mini++; else res.viol.push_back("mini parse of a Message with a zero-item field fails in another way than finding F45mini says: " + res.rep[0].substr(0, 200));}
+         if (res.o[1] != 1) {if (res.rep[1].compare(0, 29, "E native build failed: MMPut") == 0 || res.rep[1].compare(0, 28, "E native build failed: MMPut") == 0) known45mini++; else res.viol.push_back("mini native build of a Message with a zero-item field fails in another way than finding F45mini says: " + res.rep[1].substr(0, 200));}
+      }
+      if ((t45micro)&&(res.viol.empty()))
+      {
+         const std::string want = "K " + Hex(BytesOf(v["mb"]));      // the specification's bytes of the Message WITHOUT its zero-item raw fields: nothing else may differ
+         for (int k=2; k<=3; k++) if (res.o[k] != 1)
+         {
+            if ((k == 2)&&(t38)) continue;
+            if (res.rep[k] == want) known45micro++;
+            else res.viol.push_back(std::string("micro ") + ((k == 2) ? "re-serialisation" : "native build") + " of a Message with a zero-item raw field differs by more than the loss of that field (finding F45micro): " + Short(res.rep[k]));
+         }
+      }
       if ((t38)&&(res.o[2] == 0)) known38++;
       if ((t39)&&((res.o[4] == 0)||(res.o[5] == 0))) known39++;
-      if (res.viol.empty()) {batch.push_back(res.msg); batchBytes.push_back(res.cppBytes); std::string t; ContentText(v["m"], t); batchTexts.push_back(t);}
+      if ((res.viol.empty())&&(nat)) {batch.push_back(res.msg); batchBytes.push_back(res.cppBytes); std::string t; ContentText(v["m"], t); batchTexts.push_back(t);}
       if ((batch.size() >= 4)&&(res.viol.empty())) {DoFrames(I, batch, batchBytes, batchTexts, tr, res.viol, nFrames); batch.clear(); batchBytes.clear(); batchTexts.clear();}
       alarm(0);
       if (res.viol.size() > 0) {g_violCases++; ReportLine(mj::Value::Obj().set("vector", v["id"]).set("violations", StrArr(res.viol)).set("m", v["m"]).set("cpp", mj::Value::Str(Hex(res.cppBytes))).set("spec", mj::Value::Str(Hex(specB))));}
@@ -752,6 +900,8 @@ static int X08Vec(int argc, char ** argv)
    if ((batch.size() > 0)&&(g_violCases < MAX_VIOL_CASES)) {Strs viol; alarm(60); DoFrames(I, batch, batchBytes, batchTexts, tr, viol, nFrames); alarm(0); if (viol.size() > 0) {g_violCases++; ReportLine(mj::Value::Obj().set("vector", mj::Value::Str("last batch")).set("violations", StrArr(viol)));}}
    I.Stop(); fclose(tr);
    mj::Value a = mj::Value::Arr(), s = mj::Value::Arr(); for (int k=0; k<6; k++) {a.push(mj::Value::Int((int64_t) asked[k])); s.push(mj::Value::Int((int64_t) skipped[k]));}
+   if (known45mini) ReportLine(mj::Value::Obj().set("known", mj::Value::Str("F45mini")).set("times", mj::Value::Int((int64_t) known45mini)).set("text", mj::Value::Str("the mini codec has no field with zero items: MMUnflattenMessage refuses the C++ bytes, MMPut*Field(.., 0) returns NULL")));
+   if (known45micro) ReportLine(mj::Value::Obj().set("known", mj::Value::Str("F45micro")).set("times", mj::Value::Int((int64_t) known45micro)).set("text", mj::Value::Str("the micro writer cannot write a raw-buffer field with zero items (UMAddData adds exactly one item): re-serialisation and native construction lose exactly that field")));
    if (known38) ReportLine(mj::Value::Obj().set("known", mj::Value::Str("F38")).set("times", mj::Value::Int((int64_t) known38)).set("text", mj::Value::Str("the micro reader cannot read a zero-length raw item that is the last item of its field (UMFindData returns CB_ERROR)")));
    if (known39) ReportLine(mj::Value::Obj().set("known", mj::Value::Str("F39")).set("times", mj::Value::Int((int64_t) known39)).set("text", mj::Value::Str("message.py writes a wrong length for a sub-Message that has a non-ASCII field name (FlattenedSize() counts characters, Flatten() writes UTF-8 bytes)")));
    ReportLine(mj::Value::Obj().set("summary", mj::Value::Bool(true)).set("vectors", mj::Value::Int((int64_t) nVec)).set("frame_batches", mj::Value::Int((int64_t) nFrames)).set("comparisons", mj::Value::Int((int64_t) I.comparisons))
@@ -761,6 +911,17 @@ static int X08Vec(int argc, char ** argv)
 }
 
 // ------------------------------------------------------------------------------------------------ x08gen (C08 code -> spec)
+static bool allowZero = true;
+static bool ContentHasZero(const mj::Value & c)
+{
+   const mj::Value & fs = c["fields"];
+   for (size_t i=0; i<fs.a.size(); i++)
+   {
+      if (fs.a[i]["items"].a.empty()) return true;
+      if (W32(fs.a[i]["type"]) == B_MESSAGE_TYPE) for (size_t j=0; j<fs.a[i]["items"].a.size(); j++) if (ContentHasZero(fs.a[i]["items"].a[j])) return true;
+   }
+   return false;
+}
 static mj::Value RandContent(Rng & R, int depth, bool utf8, bool noSNaN, bool asciiSub = false)
 {
    mj::Value c = mj::Value::Obj(); c.set("what", ArrOf(R(4) ? LE32(R.raw()) : LE32(R(2) ? 0 : 0xFFFFFFFFu)));
@@ -776,7 +937,7 @@ static mj::Value RandContent(Rng & R, int depth, bool utf8, bool noSNaN, bool as
       if (used.count(key)) continue;
       used.insert(key);
       uint32 tc = RandType(R, depth+1, false);        // nesting <= 3 below the top
-      const uint32 cnt = (tc == B_MESSAGE_TYPE) ? 1+R(3) : (R(8) ? 1+R(3) : 1+R(40));
+      const uint32 cnt = ((allowZero)&&(R(40) == 0)) ? 0 : ((tc == B_MESSAGE_TYPE) ? 1+R(3) : (R(8) ? 1+R(3) : 1+R(40)));   // 0: a field emptied through a Message it was shared with
       mj::Value its = mj::Value::Arr();
       for (uint32 j=0; j<cnt; j++) its.push((tc == B_MESSAGE_TYPE) ? RandContent(R, depth+1, utf8, noSNaN, asciiSub) : RandItem(R, tc, utf8, noSNaN));
       fs.push(mj::Value::Obj().set("name", n).set("type", ArrOf(LE32(tc))).set("items", its));
@@ -797,6 +958,7 @@ static mj::Value MakeDetour(Rng & R, const mj::Value & c)
       const mj::Value & nm = fs.a[f]["name"]; const mj::Value & tc = fs.a[f]["type"]; const mj::Value & its = fs.a[f]["items"];
       const bool isMsg = (W32(tc) == B_MESSAGE_TYPE);
       const size_t n = its.a.size();
+      if (n == 0) {st.push(mj::Value::Obj().set("op", mj::Value::Str("ZeroField")).set("n", nm).set("t", tc)); continue;}
       std::vector<mj::Value> val; for (size_t j=0; j<n; j++) val.push_back(isMsg ? MakeDetour(R, its.a[j]) : its.a[j]);
 #define ST_ADD(J)       st.push(mj::Value::Obj().set("op", mj::Value::Str("Add")).set("n", nm).set("t", tc).set("v", val[J]))
 #define ST_PRE(J)       st.push(mj::Value::Obj().set("op", mj::Value::Str("Prepend")).set("n", nm).set("t", tc).set("v", val[J]))
@@ -838,13 +1000,17 @@ static int X08Gen(int argc, char ** argv)
       const int allow[6] = {-1, -1, -1, -1, -1, -1};
       VecResult res; DoVector(I, content, &script, NULL, -1, allow, res);
       distinct.insert(res.cppBytes); bytes += res.cppBytes.size();
-      mj::Value o = mj::Value::Obj();
-      for (int k=0; k<6; k++) {o.set(keys[k], mj::Value::Int(res.o[k])); if (res.o[k] == 1) agree[k]++; else differ[k]++;}
+      mj::Value o = mj::Value::Obj(), rr = mj::Value::Obj();
+      for (int k=0; k<6; k++)
+      {
+         o.set(keys[k], mj::Value::Int(res.o[k])); if (res.o[k] == 1) agree[k]++; else differ[k]++;
+         if ((res.o[k] != 1)&&(res.rep[k].compare(0, 2, "K ") == 0)) {std::string ob; if (UnHex(res.rep[k].substr(2), ob)) rr.set(keys[k], ArrOf(ob));}     // answered, but with other bytes: which
+      }
       if (res.viol.empty())
       {
-         std::string ln = mj::ToString(mj::Value::Obj().set("op", mj::Value::Str("Vec")).set("id", mj::Value::Int(i)).set("m", content).set("s", script).set("b", ArrOf(res.cppBytes)).set("z", mj::Value::Int((int64_t) res.msg()->FlattenedSize())).set("o", o).set("notes", StrArr(res.notes)));
+         std::string ln = mj::ToString(mj::Value::Obj().set("op", mj::Value::Str("Vec")).set("id", mj::Value::Int(i)).set("m", content).set("s", script).set("b", ArrOf(res.cppBytes)).set("z", mj::Value::Int((int64_t) res.msg()->FlattenedSize())).set("o", o).set("r", rr).set("notes", StrArr(res.notes)));
          ln += '\n'; fputs(ln.c_str(), tr);
-         batch.push_back(res.msg); batchBytes.push_back(res.cppBytes); {std::string t; ContentText(content, t); batchTexts.push_back(t);}
+         if (ContentHasZero(content) == false) {batch.push_back(res.msg); batchBytes.push_back(res.cppBytes); std::string t; ContentText(content, t); batchTexts.push_back(t);}   // the C gateways build natively
          if (batch.size() >= 3) {DoFrames(I, batch, batchBytes, batchTexts, tr, res.viol, nFrames); batch.clear(); batchBytes.clear(); batchTexts.clear();}
       }
       alarm(0);
@@ -908,10 +1074,12 @@ int main(int argc, char ** argv)
    CompleteSetupSystem css;
    SetConsoleLogLevel(MUSCLE_LOG_NONE);
    InstallHandlers();
-   if (argc < 2) {fprintf(stderr, "usage: wire replay|gen|x08vec|x08gen|pyecho ...\n"); return 2;}
+   if (argc < 2) {fprintf(stderr, "usage: wire replay|gen|vec01|heap|x08vec|x08gen|pyecho ...\n"); return 2;}
    const std::string mode = argv[1];
    if (mode == "replay") return Replay(argc, argv);
    if (mode == "gen")    return Gen(argc, argv);
+   if (mode == "vec01")  return Vec01(argc, argv);
+   if (mode == "heap")   return Heap(argc, argv);
    if (mode == "x08vec") return X08Vec(argc, argv);
    if (mode == "x08gen") return X08Gen(argc, argv);
    if (mode == "pyecho") return PyEcho(argc, argv);
